@@ -1594,3 +1594,43 @@ Proof.
   destruct E1 as (ans & tl & -> & Hs). exists ans, (tl ++ o3). split; [|exact Hs].
   cbn [app]. f_equal. f_equal. rewrite <- !app_assoc. reflexivity.
 Qed.
+
+(* ---------- histories by computation (for the examples) ------------------------------------------------ *)
+
+Fixpoint trace_from (cfg : ocfg) (s : ostate) (evs : list (oevent * list answer)) : ostate * list item :=
+  match evs with
+  | [] => (s, [])
+  | (ev, a) :: r =>
+      let '(s1, o) := ostep cfg s ev a in
+      let '(s2, tr) := trace_from cfg s1 r in
+      (s2, IEv (s_now s) ev :: map IOb o ++ tr)
+  end.
+
+Definition trace_of (cfg : ocfg) (sel op iin : N) (a : list answer) (evs : list (oevent * list answer))
+  : ostate * list item :=
+  let '(s0, o0) := ostart cfg sel op iin a in
+  let '(s1, tr) := trace_from cfg s0 evs in (s1, map IOb o0 ++ tr).
+
+Lemma trace_from_Trace : forall cfg evs s tr,
+  Trace cfg s tr -> Forall (fun p => ev_ok (fst p)) evs ->
+  Trace cfg (fst (trace_from cfg s evs)) (tr ++ snd (trace_from cfg s evs)).
+Proof.
+  induction evs as [|[ev a] r IH]; intros s tr Ht Hok; cbn [trace_from].
+  - cbn [fst snd]. rewrite app_nil_r. exact Ht.
+  - inversion Hok as [|x y Hx Hy]; subst. cbn [fst] in Hx.
+    destruct (ostep cfg s ev a) as [s1 o] eqn:E.
+    pose proof (Tr_step cfg s tr ev a s1 o Ht Hx E) as Ht1.
+    specialize (IH s1 _ Ht1 Hy). destruct (trace_from cfg s1 r) as [s2 tr2]. cbn [fst snd] in *.
+    rewrite <- app_assoc in IH. cbn [app] in IH. exact IH.
+Qed.
+
+Theorem trace_of_Trace : forall cfg sel op iin a evs,
+  Forall (fun p => ev_ok (fst p)) evs ->
+  Trace cfg (fst (trace_of cfg sel op iin a evs)) (snd (trace_of cfg sel op iin a evs)).
+Proof.
+  intros cfg sel op iin a evs Hok. unfold trace_of.
+  destruct (ostart cfg sel op iin a) as [s0 o0] eqn:E.
+  pose proof (Tr_start cfg sel op iin a s0 o0 E) as Ht.
+  pose proof (trace_from_Trace cfg evs s0 _ Ht Hok) as H.
+  destruct (trace_from cfg s0 evs) as [s1 tr]. exact H.
+Qed.
